@@ -4,6 +4,7 @@ import (
 	"fmt"
 	"go/token"
 	"go/types"
+	"os"
 	"strings"
 
 	"golang.org/x/tools/go/ssa"
@@ -452,15 +453,26 @@ func runC09(p *core.Prog, r *core.Report) {
 			if len(ret.Results) == 0 {
 				continue
 			}
+			// `if err != nil { return err }`: whatever err merges, this return carries an error
+			if _, nn := sx.NilEdges(returnValue(ret, len(ret.Results)-1)); len(nn) > 0 && sx.MustPass(c.Parse, nil, ret, sx.Cut{Edges: nn}) {
+				continue
+			}
 			for _, rc := range retCases(ret, len(ret.Results)-1) {
 				// a value that is known to be an error here: errors.New / fmt.Errorf, or a call result behind its own != nil edge
 				v := sx.Unspill(rc.Val)
-				if cc, ok := v.(*ssa.Call); ok {
-					if nm := sx.CalleeName(cc); nm == "errors.New" || nm == "fmt.Errorf" {
-						continue
+				allErr := true
+				for _, lf := range leaves(v) {
+					switch x := sx.Unspill(lf).(type) {
+					case *ssa.Call:
+						if nm := sx.CalleeName(x); nm != "errors.New" && nm != "fmt.Errorf" {
+							allErr = false
+						}
+					case *ssa.MakeInterface:
+					default:
+						allErr = false
 					}
 				}
-				if _, isMI := v.(*ssa.MakeInterface); isMI {
+				if allErr {
 					continue
 				}
 				if !sx.IsNilConst(v) {
@@ -470,6 +482,10 @@ func runC09(p *core.Prog, r *core.Report) {
 					}
 				}
 				n++
+				if os.Getenv("GLB_C09_DEBUG") != "" {
+					fmt.Fprintf(os.Stderr, "C09 ret case: ret block %d val %s at block %d\n", ret.Block().Index, v.Name(), rc.At.Block().Index)
+					c.Parse.WriteTo(os.Stderr)
+				}
 				if len(hdrs) == 0 || !sx.MustPass(c.Parse, nil, rc.At, sx.Cut{Blocks: hdrs}) {
 					bad = append(bad, "the return at "+p.Pos(ret.Pos())+" can report success (error value "+short(sx.ValPath(v))+") on a path that never entered the loop applying the command-line and environment text")
 				}
@@ -508,27 +524,48 @@ func runC09(p *core.Prog, r *core.Report) {
 					why = "a Value is built from " + keys(org) + " at " + p.Pos(mi.Pos()) + ", not from the field's own address: Set would write a copy"
 				}
 			})
-			// the builder hands the tag default to the new Value on every path that succeeds (an empty default means the zero
-			// value, not "whatever the field held")
+			// the tag default is handed to every Value built for a struct field before the Value is installed in its Flag
+			// (an empty default means the zero value, not "whatever the field held") — whether the builder does it or its
+			// caller: judged on the package's views, where the builder is seen in place
 			{
-				cutS := sx.Cut{Instrs: map[ssa.Instruction]bool{}}
-				sx.Instrs(builder, func(in ssa.Instruction) {
-					if call, ok := in.(ssa.CallInstruction); ok && c.isSet(call) {
-						cutS.Instrs[in] = true
-					}
-				})
-				okDef := len(cutS.Instrs) > 0
-				for _, ret := range sx.Returns(builder) {
-					if len(ret.Results) < 2 {
-						continue
-					}
-					for _, rc := range retCases(ret, len(ret.Results)-1) {
-						if sx.IsNilConst(rc.Val) && !sx.MustPass(builder, nil, rc.At, cutS) {
-							okDef = false
-						}
-					}
+				valueF := fieldByName(c.Flag, "Value")
+				okDef, nInst := true, 0
+				whyDef := ""
+				var vfns []*ssa.Function
+				for _, v := range pkgViews(p, "config") {
+					vfns = append(vfns, sx.WithClosures(v.Fn)...)
 				}
-				r.Check(okDef, "C09-R4", "the Value builder applies the tag default on every successful path", p.FuncPos(builder), "every nil-error return is behind value.Set(default)", "the builder can return a Value without calling Set(default) (e.g. when the default is empty): the field keeps whatever the caller's struct held, not the zero value the empty default stands for")
+				seenSt := map[ssa.Instruction]bool{}
+				for _, fn := range vfns {
+					fn := fn
+					cutS := sx.Cut{Instrs: map[ssa.Instruction]bool{}}
+					sx.Instrs(fn, func(in ssa.Instruction) {
+						if call, ok := in.(ssa.CallInstruction); ok && c.isSet(call) {
+							cutS.Instrs[in] = true
+						}
+					})
+					sx.Instrs(fn, func(in ssa.Instruction) {
+						st, ok := in.(*ssa.Store)
+						if !ok || valueF == nil {
+							return
+						}
+						fa, ok := st.Addr.(*ssa.FieldAddr)
+						if !ok || sx.FieldOf(fa) != valueF || !sx.Origins(st.Val)["call:(reflect.Value).Interface"] {
+							return
+						}
+						if o := sx.OrigInstr(in); seenSt[o] {
+							return
+						} else {
+							seenSt[o] = true
+						}
+						nInst++
+						if len(cutS.Instrs) == 0 || !sx.MustPass(fn, nil, in, cutS) {
+							okDef = false
+							whyDef = "the Value installed in a Flag at " + p.Pos(in.Pos()) + " (in " + fnName(fn) + ") can get there without Set(default) having been called"
+						}
+					})
+				}
+				r.Check(okDef && nInst > 0, "C09-R4", "the tag default is applied to every field Value before it is installed", p.FuncPos(builder), fmt.Sprintf("%d installation(s) of a field Value into a Flag, each behind value.Set(default)", nInst), whyDef+" (e.g. when the default is empty): the field keeps whatever the caller's struct held, not the zero value the empty default stands for")
 			}
 			r.Check(okAll && n > 0, "C09-R3", "Values alias the struct fields", p.FuncPos(builder), fmt.Sprintf("%d Value constructions, each a pointer conversion of v.Addr().Interface()", n), why)
 			// R4 (coverage of the type switch): every type implementing Value (pointer receiver) is produced here
